@@ -7,5 +7,6 @@ Extraction "model.ml" io_witness N.div_eucl inflate inflate_request inflate_resp
   inflate_disc_response from_frame pack pack_o cmd_eq_cpp wf_cmd default_opts NOSTATUS
   mk_frame reply_of_raw pack_append pack_with_start_code response_with_pid response_from_data
   nack_request nack_response duplicate is_request_cc is_response_cc
+  combine_responses reply_from_frame dub_reply frame_eq new_frame
   new_dub new_mute new_unmute is_dub set_request set_response verify_null
   START_CODE SUB_START_CODE RDM_ACK RDM_NACK_REASON.
